@@ -52,7 +52,8 @@ CLAIMED = {
                      "interpolation (every curve point is a rank's (precision, recall) and dominates the precision of every higher rank; closing point at recall 0), "
                      "and the area sum (AP equals the sum over the interpolated curve, lies in [0,1] when precision is in [0,1] and recall non-decreasing in [0,1], "
                      "is 0 when no estimate is correct).",
-                note="Not under contract in this build: Ap.__init__ (flatten + stable sort by confidence), _calculate_tp_fp (np.cumsum of TP weights), Map (mean), "
+                note="Ap._calculate_tp_fp is verified too (rank by rank: TP weight iff not ignored and correct at the threshold of the ground truth's label, FP count otherwise; cumulative sums "
+                     "stated recursively; np.cumsum assumed). Not under contract in this build: Ap.__init__ (flatten + stable sort by confidence), Map (mean), "
                      "'AP = 1 for a perfect ranking', 'APH <= AP'; those clauses are covered only by the native harness (exhaustive rankings up to length 6, "
                      "bounded). Floats as reals.", ref="5/C04"),
     "C09": dict(text="get_heading_bev, TPMetricsAph.get_value and get_heading_error are verified, relative to the assumed pyquaternion contract, to compute "
@@ -88,7 +89,8 @@ CLAIMED = {
                      "symbolic key) for all configuration dictionaries over the keys the code reads.",
                 note="One open known finding (unknown configuration key dropped before it reaches _check_parameters) is reported as KNOWN-FINDING. Broadcast / "
                      "idempotence / no-padding of __get_thresholds and __get_nested_thresholds: bounded native harness (all nestings up to length 3, mixed types). "
-                     "CriticalObjectFilterConfig / PerceptionPassFailConfig / SensingEvaluationConfig._extract_params: harness only.", ref="5/C15"),
+                     "CriticalObjectFilterConfig.__init__ and PerceptionPassFailConfig.__init__ are verified too (every per-label list validated against the number of target labels, "
+                     "filtering_params exposes the validated lists); SensingEvaluationConfig._extract_params: harness only.", ref="5/C15"),
     "C18": dict(text="Proved from the code: argument dispatch and frame labelling of HomogeneousMatrix.__init__/dot/inv/transform (every calling convention) "
                      "and the registry logic of TransformDict.transform built by the real constructor (X->X returns its argument, registered X->Y first, else the "
                      "inverse of Y->X, else KeyError; a string source frame behaves as the member it names). Each result is a stated term of an abstract rigid-matrix "
